@@ -76,6 +76,10 @@ def decode_commands(data: bytes):
 
 # ------------------------------------------------------------------------ reply encoding
 
+# a line that begins with a complete quoted string (what the client's listing decoder takes for a quoted name)
+QUOTED_PREFIX = re.compile(rb'"(?:[^"\\]|\\.)*"', re.S)
+
+
 def quote(b: bytes) -> bytes:
     return b'"' + b.replace(b"\\", b"\\\\").replace(b'"', b'\\"') + b'"'
 
@@ -112,7 +116,7 @@ class Choice:
             # the human-readable text is free-form (RFC 5804 section 1.2): it may quote the script, so it may hold braces with a number
             # in them, quotes, parentheses or status words — none of which is protocol syntax inside a string
             if self.r.random() < 0.2:
-                text = text + self.r.choice([b" near ${1} {2}", b' {7}', b" (see {10+} )", b' "x" OK', b" {3} {4}", b"\\ NO (A) {1}"])
+                text = text + self.r.choice([b" near ${1} {2}", b' {7}', b" (see {10+} )", b' "x" OK', b" {3} {4}", b"\\ NO (A) {1}", b"\r\n", b":\r\nline 1: syntax error\r\n", b"\n", b"\r"])
             out += b" " + self.string(text)
         else:
             text = None
@@ -170,6 +174,10 @@ class RefServer:
 
     def tls_started(self):
         self.tls = True
+        if getattr(self, "post_tls_reply", None) is not None:
+            # a server that does not answer the handshake with a usable capability listing (NO, BYE, a listing ending in NO)
+            r_ = self.post_tls_reply
+            return (self.caps() if r_.startswith(b"+") else b"") + r_.lstrip(b"+")
         return self.caps() + b'OK "TLS negotiation successful."\r\n'
 
     def st(self, status, code=None, text=None):
@@ -310,8 +318,8 @@ class RefServer:
             for name in self.scripts:
                 if self.choice.literal_names == "safe":
                     # every name goes out as a literal, except where the client's reading of literal names is a pinned
-                    # finding (KF-C17-1: the active script's line, a name beginning with a quote)
-                    as_literal = name != self.active and not name.startswith(b'"') and b"\r" not in name and b"\n" not in name
+                    # finding (KF-C17-1: the active script's line, a name beginning with a complete quoted string)
+                    as_literal = name != self.active and not QUOTED_PREFIX.match(name) and b"\r" not in name and b"\n" not in name
                 else:
                     as_literal = self.choice.literal_names and self.r.random() < 0.5
                 if as_literal:
